@@ -369,3 +369,7 @@ pub trait TextPane {
     fn get_line_length(&self, line: i32) -> i32;
     fn get_rectangle(&self) -> Rectangle;
 }
+
+#[cfg(any(kani, icy_engine_verif))]
+#[path = "/verif/kc/lib_harness.rs"]
+mod verif_kani;
